@@ -62,3 +62,61 @@ Example c02_example :
   let '(s5, i5) := store s4 c in
   (i1, i2, i3, d, i5) = (0%Z, 1%Z, (-1)%Z, Some {| d_client := 1; d_stream := 7; d_token := 55 |}, 0%Z).
 Proof. vm_compute. reflexivity. Qed.
+
+(** ---- added: the same property over the integrated request-path model Model/Core.v
+    (many requests, many connections, stream-id tables, retries, closes, failed writes) ---- *)
+From Coq Require Import List ZArith NArith Bool Permutation.
+From CqlProxy Require Import Lib.Val Gen.Tables Model.Retry Model.Core Proofs.CoreProofs Proofs.CoreProofs2.
+Local Open Scope N_scope.
+
+(** ** C02 -- a response is delivered only to the request (stream, client) that caused it *)
+
+(** T3.  For the connection created by [EConnect k h n] (the first one for [k]; later ones are
+    ignored), the ids in the stream-id channel and the ids in the pending table are together exactly
+    0..n-1, each once -- open or closing, whatever was sent, answered, failed to be written.  Hence a
+    backend stream id never carries two requests at once. *)
+Theorem c02_core_stream_ids_partition : forall es k,
+  match first_connect es k with
+  | Some (h, n) =>
+      exists c, lookupN k (w_conns (run_events es)) = Some c /\ b_host c = h /\
+                Permutation (b_free c ++ map fst (b_pending c)) (map N.of_nat (seq 0 n)) /\
+                NoDup (b_free c ++ map fst (b_pending c))
+  | None => lookupN k (w_conns (run_events es)) = None
+  end.
+Proof. exact core_stream_ids_partition. Qed.
+Print Assumptions c02_core_stream_ids_partition.
+
+(** T4.  Whenever a backend frame that arrived on connection [k], stream [bs] is forwarded to a client
+    as the answer to request [r], the last request written to [k] under stream [bs] before that was
+    [r] itself -- whatever stream-id reuse happened in between. *)
+Theorem c02_core_answer_routes_to_its_request : forall es pre c s r k bs post,
+  w_out (run_events es) = pre ++ ToClient c s r (CFrame k bs) :: post ->
+  exists pre1 post1, pre = pre1 ++ ToBackend k bs r :: post1 /\ forall r', ~ In (ToBackend k bs r') post1.
+Proof. exact core_answer_routes_to_its_request. Qed.
+Print Assumptions c02_core_answer_routes_to_its_request.
+
+(** T5 (repaired Send).  A request is registered on an open connection under stream [s] only if it
+    was written there, and that write is the last one on that (connection, stream). *)
+Theorem c02_core_registered_only_where_written : forall es k s r,
+  In (s, r) (live (run_events es) k) ->
+  exists pre post, w_out (run_events es) = pre ++ ToBackend k s r :: post /\ forall r', ~ In (ToBackend k s r') post.
+Proof. exact core_registered_only_where_written. Qed.
+Print Assumptions c02_core_registered_only_where_written.
+
+(** The Send of the code before fix 7dfaea9 violates it: a request whose write failed stays
+    registered on a connection it was never written to. *)
+Theorem c02_core_registered_only_where_written_orig_refuted :
+  exists es k s r, In (s, r) (live (run_events_orig es) k) /\ forall r', ~ In (ToBackend k s r') (w_out (run_events_orig es)).
+Proof. exact core_registered_only_where_written_orig_refuted. Qed.
+Print Assumptions c02_core_registered_only_where_written_orig_refuted.
+
+Example c02_core_example :
+  (first_connect ex_es 3,
+   option_map (fun c => (b_free c, b_pending c)) (lookupN 3 (w_conns (run_events ex_es))),
+   option_map (fun c => (b_free c, b_pending c)) (lookupN 3 (w_conns (run_events (firstn 9 ex_es))))) =
+  (Some (30, 2%nat), Some ([0; 1], []), Some ([0], [(1, 7)])).
+Proof. exact ex_ids. Qed.
+Example c02_core_example_route :
+  exists pre post, w_out (run_events ex_es) = pre ++ ToClient 0 5%Z 7 (CFrame 3 1) :: post /\ last_write pre 3 1 = Some 7.
+Proof. exact ex_route. Qed.
+
